@@ -46,7 +46,7 @@ func GenTxPlan(rt *rapid.T, tier string) *TxPlan {
 		n = rapid.IntRange(1, 6).Draw(rt, "nforms2")
 	}
 	for i := 0; i < n; i++ {
-		f := TxForm{Kind: rapid.SampledFrom([]string{"transfer", "transfer", "multi", "kvtx", "account"}).Draw(rt, "kind")}
+		f := TxForm{Kind: rapid.SampledFrom([]string{"transfer", "transfer", "multi", "kvtx", "account", "unauthorised"}).Draw(rt, "kind")}
 		f.Ver = rapid.IntRange(1, 3).Draw(rt, "ver")
 		f.A = rapid.IntRange(0, 2).Draw(rt, "a")
 		f.B = rapid.IntRange(0, 5).Draw(rt, "b")
@@ -343,7 +343,91 @@ func (r *txRun) noteDigest(tx *lpb.Transaction, what string) *Violation {
 	return nil
 }
 
+const c07Ghost = "XC9999999999999999@xuper" // a well-formed account name that is never created
+
+// doUnauthorised submits correctly signed transactions whose signers do NOT own what they spend: an
+// output of another address, an output of a threshold account with too little weight, an output of
+// an account name that has no access-control rule at all. None may be admitted.
+func (r *txRun) doUnauthorised(f *TxForm) *Violation {
+	n := r.n
+	thief := Accts[1+f.A%2]
+	try := func(what string, sp *TxSpec) *Violation {
+		tx, err := BuildTx(sp)
+		if err != nil {
+			return nil
+		}
+		r.rc.St.Probes["unauthorised-spend-tried"]++
+		tw, err := n.Twin()
+		if err != nil {
+			panic(err)
+		}
+		defer tw.Drop()
+		if tw.Chain.SubmitTx(tw.BaseCtx(), CloneTx(tx)) == nil {
+			return r.viol("unauthorised-spend-admitted", "%s was admitted: %s signed by %v", what, descTx(tx), sp.AuthRequire)
+		}
+		return nil
+	}
+	switch f.B % 3 {
+	case 0: // output of another address
+		us := r.spendable(Accts[0].Addr)
+		if len(us) == 0 {
+			return nil
+		}
+		u := us[f.C%len(us)]
+		return try("a spend of another address's output", &TxSpec{From: thief, Version: int32(f.Ver), Inputs: []UtxoRef{u}, Outs: []OutSpec{{To: thief.Addr, Amount: u.Amount}}, NoChange: true})
+	case 1: // threshold account, one of two 0.6-weight keys against a threshold of 1.0
+		if !r.ensureAccount() {
+			return nil
+		}
+		us := r.spendable(c07Account)
+		if len(us) == 0 {
+			return nil
+		}
+		u := us[f.C%len(us)]
+		one := Accts[3+f.A%2]
+		for _, ar := range [][]string{{c07Account + "/" + one.Addr}, {c07Account + "/" + one.Addr, c07Account + "/" + one.Addr}} {
+			signers := []*Acct{one}
+			if len(ar) == 2 {
+				signers = []*Acct{one, one}
+			}
+			if v := try("a spend of a threshold-account output with one key of weight 0.6 (threshold 1.0)", &TxSpec{From: one, Version: 3, Inputs: []UtxoRef{u}, Outs: []OutSpec{{To: one.Addr, Amount: u.Amount}}, NoChange: true, AuthRequire: ar, Signers: signers}); v != nil {
+				return v
+			}
+		}
+	case 2: // account name without any rule
+		if us := r.spendable(c07Ghost); len(us) == 0 {
+			payer := Accts[0]
+			pu := r.spendable(payer.Addr)
+			if len(pu) == 0 {
+				return nil
+			}
+			tx, err := BuildTx(&TxSpec{From: payer, Version: 3, Inputs: []UtxoRef{pu[0]}, Outs: []OutSpec{{To: c07Ghost, Amount: big.NewInt(500)}, {To: c07Ghost, Amount: big.NewInt(501)}}})
+			if err != nil || n.Chain.SubmitTx(n.BaseCtx(), tx) != nil {
+				return nil
+			}
+			time.Sleep(time.Second)
+			if _, err := n.Mine(MineOpts{MaxTx: -1}); err != nil {
+				return nil
+			}
+		}
+		us := r.spendable(c07Ghost)
+		if len(us) == 0 {
+			return nil
+		}
+		u := us[f.C%len(us)]
+		for _, ar := range [][]string{{thief.Addr}, {c07Ghost + "/" + thief.Addr}} {
+			if v := try("a spend of an output owned by an account name that has no access-control rule", &TxSpec{From: thief, Version: int32(1 + f.Ver%3), Inputs: []UtxoRef{u}, Outs: []OutSpec{{To: thief.Addr, Amount: u.Amount}}, NoChange: true, AuthRequire: ar, Signers: []*Acct{thief}}); v != nil {
+				return v
+			}
+		}
+	}
+	return nil
+}
+
 func (r *txRun) doForm(f *TxForm) *Violation {
+	if f.Kind == "unauthorised" {
+		return r.doUnauthorised(f)
+	}
 	tx, signers, ini := r.buildForm(f)
 	if tx == nil {
 		r.rc.Log.Add("%d form %s: not buildable", r.step, f.Kind)
